@@ -1074,6 +1074,9 @@ class World:
             ki = self.info[k]
             if ids is None:
                 ki.nid = owner_new
+            elif ki.chain_const:
+                # re-created through a constant view: MyGrad's replayed chain cuts the gradient there
+                ki.nid = tp.leaf(tp.val(owner_new).reshape(-1)[ids], ki.const)
             else:
                 ki.nid = tp.apply("gather", [owner_new], {"ids": ids}, ki.const)
             ki.vh.append(ki.nid)
